@@ -43,7 +43,7 @@ def build_driver(prop, unit):
 
 def parse_value(s):
     s = s.strip()
-    m = re.match(r'^(-?\d+)/(\d+)$', s)
+    m = re.match(r'^(-?\d+)/(-?\d+)$', s)
     if m:
         return int(m.group(1)) / int(m.group(2))
     try:
